@@ -358,6 +358,7 @@ class Verdict(object):
         self.known = [k for k in load_known() if k['property'] == pid]
         self.notes = []
         self._nontrivial = set()
+        shutil.rmtree(os.path.join(ROOT, 'replays', pid), ignore_errors=True)
 
     def violation(self, key, detail):
         self.violations.setdefault(key, []).append(detail)
